@@ -548,6 +548,18 @@ theorem log_is_function_of_run (v : Variant) (n : Nat) (s : Cpu) (z0 : ZX) :
     · exact hb n s x.zx x.log
     · rw [hxy]; exact hb n s y.zx y.log
 
+/-- **The log does not depend on the machine's other ghost histories.** The machine model keeps two
+ghost histories of its own (`tlog`: timed bus operations, `wlog`: RAM stores; both newest first). Whatever
+they contain at the start — `T`, `W` behind whatever `z0` has — the program logs the same port accesses:
+the log depends on the CPU state and on the real state of the machine only. -/
+theorem log_independent_of_machine_ghosts (v : Variant) (n : Nat) (s : Cpu) (z0 : ZX)
+    (T : List (BitVec 8 × TOp)) (W : List (Nat × Nat × BitVec 8)) :
+    log v n s (z0.withOlder T W) = log v n s z0 := by
+  have h := (older_hom T W).run v n s (IoZX.start z0)
+  show (Z80.run v n (s, IoZX.start (z0.withOlder T W))).2.log = _
+  have e : IoZX.start (z0.withOlder T W) = IoZX.withOlder T W (IoZX.start z0) := rfl
+  rw [e, h]; rfl
+
 /-! ### Non-vacuity: a program that uses the ports -/
 
 /-- `LD A,5 ; OUT (0xFE),A ; IN A,(0x1F) ; LD BC,0x7FFD ; LD A,0x13 ; OUT (C),A ; IN A,(0xFE) ; IN A,(0xFF)` —
